@@ -42,7 +42,7 @@ PY_NONVERSION_LITS = ["3.8.0+", "3.9+abc", "unknown"]  # "3.9+abc": a local labe
 NONVERSION_LITS = REL_NONVERSION_LITS + PY_NONVERSION_LITS
 REL_VALUES = ["5.3", "5.4", "5.4.0", "5.4.1", "5.10.1", "5.15.0", "5.15.1", "6.0", "6.0.1", "6.1", "6.1.1", "9.9", "10", "10.0", "10.1", "21.6.0", "21.6.1", "22.0.0"]
 EXTRA_NAMES = ["foo", "bar", "Foo_Bar", "foo-bar", "baz"]
-EXTRA_ENV_NAMES = ["foo", "bar", "foo-bar", "FOO.BAR", "baz", "qux"]
+EXTRA_ENV_NAMES = ["foo", "bar", "foo-bar", "FOO.BAR", "baz", "qux", "foo_-bar", "Foo._.Bar"]  # mixed separator runs normalise to one dash
 VERSION_VARS = ("python_version", "python_full_version", "platform_release")
 CMP_OPS = ["==", "!=", "<", "<=", ">", ">="]
 REFLECT = {"<": ">", "<=": ">=", ">": "<", ">=": "<=", "==": "==", "!=": "!=", "in": "in", "not in": "not in", "~=": "~="}
